@@ -365,6 +365,55 @@ def merge_tolerance(chk, tier, rng):
             return
 
 
+def reuse_obligation(chk, tier, rng):
+    """History: one task list object resolved and calculated for axial strains A, then again for strains B (another symbolic triple) --
+    the values read after the second calculation are those of a fresh list given B."""
+    nq, np_, nv = 2, 3, 1
+    ctx, duck, strain = make_problem(nq, np_, nv, "sym")
+    strain_b = symvars("f", (nv, 3), positive=True)
+    keys = ["c11", "c12", "c44", "c14"] if tier == "quick" else ["c11", "c22", "c12", "c23", "c44", "c55", "c14", "c25", "c46"]
+    t0 = time.time()
+    fails = []
+    try:
+        again, _ = PL.run_pipeline_reused(duck, strain, strain_b, keys)
+        fresh, _ = PL.run_pipeline(duck, strain_b, keys)
+        for which in ("iso", "adi"):
+            if set(again[which]) != set(keys):
+                fails.append("keys with a value after the second calculation: %s" % sorted(again[which]))
+                continue
+            for k in keys:
+                for (idx, a), (_, b) in zip(entries(again[which][k]), entries(fresh[which][k])):
+                    if not a.same(b) and Z.prove_zero(a - b, name="reuse:%s" % k, timeout_ms=20000)[0] != "unsat":
+                        fails.append("%s %s after re-use differs from a fresh list" % (which, k))
+                        break
+    except SymError as e:
+        chk.inconclusive("reuse", str(e))
+        return
+    except Exception as e:
+        fails.append("raises %s: %s" % (type(e).__name__, e))
+    chk.obligation("history: a task list resolved and calculated a second time with other strains returns the values of a fresh list [%d keys]" % len(keys),
+                   "unsat" if not fails else "sat", seconds=round(time.time() - t0, 1), kind="history(2 calculations)", detail=sorted(set(fails))[:3])
+    if fails:
+        d = PL.float_duck(2, 6, 2, 2, rng)
+        ea = numpy.array([[0.25, 0.35, 0.40], [0.22, 0.36, 0.42]])
+        eb = numpy.array([[0.40, 0.25, 0.35], [0.42, 0.22, 0.36]])
+        try:
+            with numpy.errstate(all="ignore"):
+                iso2, adi2 = PL.real_pipeline_reused(d, ea, eb, keys)
+                iso1, adi1, _ = PL.real_pipeline(d, eb, keys)
+        except Exception as e:
+            chk.violation("history:reuse-raises", "a task list used for a second calculation raises %s: %s" % (type(e).__name__, str(e)[:120]), dict(keys=keys))
+            return
+        for k in keys:
+            sc = max(numpy.abs(iso1[k]).max(), 1e-6 * max(numpy.abs(v).max() for v in iso1.values())) + 1e-300
+            dev = max(numpy.abs(iso2[k][1:] - iso1[k][1:]).max(), numpy.abs(adi2[k][1:] - adi1[k][1:]).max()) / sc
+            if dev > 1e-9:
+                chk.violation("history:reuse", "a task list first used with strains %s returns %s differing by %.3g relative from a fresh list when used "
+                              "again with strains %s" % (ea[0].tolist(), k, dev, eb[0].tolist()), dict(keys=keys))
+                return
+        chk.harness_error("reuse: '%s' did not reproduce on the real code" % fails[0])
+
+
 def tighten(cond, rt, at):
     """Rebuild an allclose condition tree |a-b| <= at' + rt'|b| with the tight tolerances (same a, b)."""
     # the tree built by npproxy._close_cond:  or( and(y>=0, |d|<=at+rt*y), and(y<0, |d|<=at-rt*y) ) per element
@@ -429,6 +478,7 @@ def main():
     covariance(chk, tier, rng)
     completeness_and_independence(chk, tier, rng)
     merge_tolerance(chk, tier, rng)
+    reuse_obligation(chk, tier, rng)
     chk.bound(shape="nq=2, np=3 (isotropy thorough: np=6, nv=2), nT=2 (T=0 and symbolic T)", request_sets="21 singletons, %s ordered pairs, "
               "full set in 3 orders, 9 crystal-system sets" % ("30 seeded" if tier == "quick" else "all 420"), path_budget=64)
     chk.stub("numpy.allclose in tasks.py: 'structural' cut (close iff structurally identical polynomials) for the identity obligations; "
